@@ -15,14 +15,14 @@ LEVEL = "fault_enumeration"
 RULE = (
     "each run = one seeded (model size, storage depths, time-manager and Newton knobs, per-attempt fault decision in "
     "{none, diverge@j, stall@j, nan@j, blowup@j}) execution of the real pp.run_time_dependent_model on a small compressible "
-    "single-phase flow model; after every converged step, every failed step, every raise out of the failure handling and at "
+    "single-phase flow model (workload driver) or on energy / contact-mechanics / poromechanics models (driver_mp); after every converged step, every failed step, every raise out of the failure handling and at "
     "the end of the run the stored time-step/iterate values are compared bitwise with the shadow list of accepted solutions. "
     "Non-trivial = at least 3 accepted steps or one fired fault; distinct = distinct outcome string over "
     "{conv, landed, failed:<kind>, raised:<kind>}."
 )
 STATE_ABSTRACTION = "time-manager abstract state (scheduled_idx, recomp_num, about_to_hit, dt class, relation to next scheduled point) at every observation point"
 ASSUMPTIONS = [
-    "physics is one small model family (compressible single-phase flow, Cartesian 1-9 cell 2-d grid with 0-2 fractures); the driver, hooks and storage are shared by all models",
+    "physics: compressible single-phase flow (workload driver) and mass+energy balance / momentum balance with contact mechanics / poromechanics (workload driver_mp), Cartesian 1-16 cell 2-d grids with 0-2 fractures; thermoporomechanics, compositional flow and the fracture-damage example (which overrides update_solution) are not run",
     "faults are injected by overriding check_convergence / solve_linear_system in a model subclass (both call super() first); the export is a no-op in this workload",
     "a run is cut at 60 solve attempts (reported as probe attempt_cap_reached, no verdict for the cut tail)",
 ]
@@ -31,13 +31,13 @@ WARMUP_RUNS = 3
 
 WORKLOADS = [
     Workload(
-        name="driver", run=driver_sim.make_run("C10"), runs={"quick": 320, "thorough": 12_000}, chunk=10, run_timeout=300.0,
+        name="driver", leak_mb=0.75, override_cap=48, run=driver_sim.make_run("C10"), runs={"quick": 320, "thorough": 12_000}, chunk=10, run_timeout=300.0,
         real=["pp.run_time_dependent_model", "pp.NewtonSolver.solve/iteration", "SolutionStrategy.before_nonlinear_loop/after_nonlinear_iteration/after_nonlinear_convergence/after_nonlinear_failure/update_solution/check_convergence",
               "pp.TimeManager", "EquationSystem value storage and assembly", "SinglePhaseFlow physics, SquareDomainOrthogonalFractures geometry, scipy sparse solve"],
         stub=["fault-injecting overrides of check_convergence and solve_linear_system (pass the real answer through when no fault is due)", "save_data_time_step is a no-op (export studied under C38)"],
     ),
     Workload(
-        name="driver_mp", run=driver_sim.make_run("C10", families=("energy", "mech", "poro")), runs={"quick": 64, "thorough": 3_000}, chunk=4, run_timeout=600.0,
+        name="driver_mp", leak_mb=0.9, override_cap=16, run=driver_sim.make_run("C10", families=("energy", "mech", "poro", "damage")), runs={"quick": 64, "thorough": 3_000}, chunk=4, run_timeout=600.0,
         real=["as workload driver, with the physics replaced by MassAndEnergyBalance / MomentumBalance (contact mechanics) / Poromechanics on the same geometry: "
               "vector-valued, interface and contact-traction variables in the stored state, genuinely non-converging solves (contact) next to the injected ones"],
         stub=["fault-injecting overrides of check_convergence and solve_linear_system", "save_data_time_step is a no-op"],
